@@ -39,6 +39,44 @@ def validate(ctx, tracedir):
             ctx.inconclusive.append('queue trace validation failed to run: %s\n%s' % (r.error, r.output[-2000:]))
 
 
+def validate_hooks(ctx, tracedir):
+    """Hook-level traces of the real ring against the detailed Ring.tla (silent: Ticket, RSignal)."""
+    tmpl = open(os.path.join(vlib.SPEC, 'queue', 'RingTrace.cfg.tmpl')).read()
+    for f in sorted(glob.glob(os.path.join(tracedir, 'ringhooks-*.ndjson'))):
+        n = sum(1 for _ in open(f))
+        if n == 0:
+            continue
+        slots = re.search(r'ringhooks-(\d+)', f).group(1)
+        cfgp = os.path.join(tracedir, 'RingTrace-%s.cfg' % slots)
+        open(cfgp, 'w').write(tmpl.replace('%N%', slots))
+        r = vlib.tlc('queue', 'RingTrace', os.path.basename(cfgp), workers=1, timeout=1500, files=[cfgp], env={'VERIF_TRACE': f})
+        ctx.tlc_runs.append(dict(r.summary(), trace_events=n, trace=os.path.basename(f)))
+        ctx.states += r.distinct
+        ctx.transitions += r.generated
+        if r.ok:
+            continue
+        if r.violated or 'Postcondition TraceAccepted' in r.output:
+            what = 'hook trace of the real ring (%s slots) rejected by RingTrace.tla: ' % slots
+            if r.violated:
+                what += 'invariant %s violated' % r.violated
+                sig = 'ring-trace-invariant-%s slots=%s' % (r.violated, slots)
+            else:
+                m2 = re.search(r'"REJECTED-AT",\s*(\d+),\s*\[(.*?)\]', r.output, re.S)
+                evname = ''
+                if m2:
+                    m3 = re.search(r'ev \|-> "([^"]+)"', m2.group(2))
+                    evname = m3.group(1) if m3 else ''
+                    what += 'no action of Ring.tla explains recorded event #%s: %s' % (m2.group(1), ' '.join(m2.group(2).split()))
+                sig = 'ring-trace-rejected-at-%s slots=%s' % (evname or 'unknown', slots)
+            keep = os.path.join(vlib.VERIF, 'replays', ctx.pid)
+            os.makedirs(keep, exist_ok=True)
+            dst = os.path.join(keep, os.path.basename(f))
+            shutil.copy(f, dst)
+            ctx.violation(sig, what + '\n' + r.output[-1200:], dict(trace=dst))
+        else:
+            ctx.inconclusive.append('ring hook trace validation failed to run: %s\n%s' % (r.error, r.output[-2000:]))
+
+
 def run(ctx):
     th = ctx.tier == 'thorough'
     for c in ['MC_ring_quick.cfg', 'MC_ring_n4.cfg'] + (['MC_ring_thorough.cfg'] if th else []):
@@ -57,5 +95,6 @@ def run(ctx):
     try:
         ctx.run_driver(binp, ['-runs', '300' if th else '40', '-tracedir', tracedir], timeout=1800)
         validate(ctx, tracedir)
+        validate_hooks(ctx, tracedir)
     finally:
         shutil.rmtree(tracedir, ignore_errors=True)
